@@ -188,7 +188,9 @@ class Lists(Space):
         return Outcome(viol=list(seen.items()), tags=sorted(set(tags)), obs=hash(tuple(outs.values())))
 
 
-EMPH = ["**a**", "__a__", "***a***", "_**a**_", "**a", "b**", "a", "*a*", "`a`", "{% t %}", "**", "*a **b** c*", "**a** **b**", "[**a**](u)"]
+EMPH = ["**a**", "__a__", "***a***", "_**a**_", "**a", "b**", "a", "*a*", "`a`", "{% t %}", "**", "*a **b** c*", "**a** **b**", "[**a**](u)",
+        # appended later: emphasis that begins or ends with a bold run but is not bold as a whole
+        "***a** b*", "*a **b***", "***a** b c*", "_**a** b_", "**a *b***", "***a* b**"]
 
 
 def unbold_ref(tree):
